@@ -30,6 +30,9 @@ pub struct TestRunnerAdapter {
     event_sender: Sender<MachineEvent>,
     event_receiver: Receiver<MachineEvent>,
     breakpoints: Arc<Mutex<Vec<MachineBreakpoint>>>,
+    /// The address the machine was resumed at. The instruction at that address gets executed without looking at its
+    /// breakpoint (otherwise the machine could never leave a breakpoint); every later arrival at any address is checked.
+    resumed_at: Arc<Mutex<Option<ProgramCounter>>>,
 }
 
 impl TestRunnerAdapter {
@@ -42,6 +45,7 @@ impl TestRunnerAdapter {
         let is_connected = Arc::new(AtomicBool::new(true));
         let state = Arc::new(Mutex::new(MachineRunningState::Launching));
         let breakpoints: Arc<Mutex<Vec<MachineBreakpoint>>> = Arc::new(Mutex::new(vec![]));
+        let resumed_at: Arc<Mutex<Option<ProgramCounter>>> = Arc::new(Mutex::new(None));
 
         let (event_sender, event_receiver) = unbounded();
 
@@ -53,10 +57,10 @@ impl TestRunnerAdapter {
         let thread_state = state.clone();
         let thread_runner = runner.clone();
         let thread_breakpoints = breakpoints.clone();
+        let thread_resumed_at = resumed_at.clone();
         let thread_sender = event_sender.clone();
         let thread_test_case_path = test_case_path.clone();
         thread::spawn(move || {
-            let mut last_checked_pc = None;
             while thread_is_connected.load(Ordering::Relaxed) {
                 let state = *thread_state.lock().unwrap();
                 match state {
@@ -68,8 +72,9 @@ impl TestRunnerAdapter {
                             let runner = thread_runner.read().unwrap();
                             let pc =
                                 ProgramCounter::new(runner.cpu().get_program_counter() as usize);
-                            if last_checked_pc != Some(pc) && !no_debug {
-                                last_checked_pc = Some(pc);
+                            // Only the very first instruction after resuming is exempt from the breakpoint check
+                            let just_resumed_here = thread_resumed_at.lock().unwrap().take() == Some(pc);
+                            if !just_resumed_here && !no_debug {
                                 let bps = thread_breakpoints.lock().unwrap();
                                 if bps
                                     .iter()
@@ -163,6 +168,7 @@ impl TestRunnerAdapter {
             event_sender,
             event_receiver,
             breakpoints,
+            resumed_at,
         })
     }
 
@@ -237,6 +243,10 @@ impl MachineAdapter for TestRunnerAdapter {
     }
 
     fn resume(&mut self) -> MosResult<()> {
+        let state = *self.state.lock().unwrap();
+        if let MachineRunningState::Stopped(pc) = state {
+            *self.resumed_at.lock().unwrap() = Some(pc);
+        }
         self.update_state(MachineRunningState::Running)?;
         Ok(())
     }
